@@ -59,6 +59,7 @@ def hs(spectrum, freq, dir=None, tail=True):
     df = abs(freq[1:] - freq[:-1])
     if dir is not None and len(dir) > 1:
         ddir = abs(dir[1] - dir[0])
+        ddir = min(ddir, 360 - ddir)
         E = ddir * spectrum.sum(1)
     else:
         E = np.squeeze(spectrum)
